@@ -200,6 +200,15 @@ class VLib(V):
         self.name = name
 
 
+class VExternal(V):
+    """an external object (backend handle, matplotlib axes, ...): attribute calls are recorded in rec['calls'] as
+    (method, args, kwargs) and return an opaque value (havoc); assumed contracts are stated by the caller's post"""
+
+    def __init__(self, name, rec):
+        self.name, self.rec = name, rec
+        rec.setdefault("calls", [])
+
+
 class VOpaque(V):
     def __init__(self, tag):
         self.tag = tag
@@ -569,15 +578,22 @@ class Engine:
     def ev_Name(self, n, st):
         if n.id in st.locals:
             return st.locals[n.id]
+        if n.id in getattr(self, "consts", {}):
+            return self.consts[n.id]
+        if n.id in ("True", "False"):
+            return VBool(z3.BoolVal(n.id == "True"))
         if n.id in ("np", "warnings", "integrate"):
             return VLib(n.id)
         if n.id in ("len", "list", "float", "int", "zip", "enumerate", "range", "abs", "isinstance", "tuple", "max", "min", "dict"):
             return VLib(n.id)
         if n.id in self.repo.classes:
             return VLib("class:" + n.id)
-        if n.id in self.lib:
+        if n.id in self.lib or any(k_.startswith(n.id + ".") for k_ in self.lib):
             return VLib(n.id)
         raise Unsupported("unbound name " + n.id)
+
+    def ev_JoinedStr(self, n, st):
+        return VStr("<f-string>")
 
     def ev_List(self, n, st):
         if n.elts:
@@ -609,7 +625,11 @@ class Engine:
             if self.repo.find(cname, n.attr)[1] is not None:
                 return VBound(base, n.attr)
             raise Unsupported("class attribute " + ast.unparse(n))
-        if isinstance(base, VDict) and n.attr in ("get", "pop", "setdefault"):
+        if isinstance(base, VDict) and n.attr in ("get", "pop", "setdefault", "keys", "values", "items"):
+            return VBound(base, n.attr)
+        if isinstance(base, VStr) and n.attr in ("format", "join"):
+            return VBound(base, n.attr)
+        if isinstance(base, VExternal):
             return VBound(base, n.attr)
         if isinstance(base, VRef) and n.attr == "__class__":
             return VLib("class:" + base.cls)
@@ -621,7 +641,7 @@ class Engine:
             if self.ftype(base.cls, n.attr) is not None:
                 return self.read_field(st, base, n.attr)
             if self.repo.is_property(base.cls, n.attr):
-                return self.call_method(st, base, n.attr, [], {}, kind="getter")
+                return self.call_method(st, base, n.attr, [], {}, kind="getter", node=n)
             if self.repo.find(base.cls, n.attr)[1] is not None:
                 return VBound(base, n.attr)
             raise Unsupported(f"attribute {base.cls}.{n.attr}")
@@ -660,6 +680,8 @@ class Engine:
             return v.e
         if isinstance(v, VStr):
             return z3.BoolVal(bool(v.s))
+        if isinstance(v, VDict):
+            return z3.BoolVal(bool(v.d))
         if isinstance(v, VTuple):
             return z3.BoolVal(bool(v.items))
         if isinstance(v, (VSeq, VRefSeq)):
@@ -696,6 +718,8 @@ class Engine:
         return VSeq(FnArr(lambda k_: z3.If(k_ < a.len, a.arr[k_], b.arr[k_ - a.len])), a.len + b.len, pylist=True)
 
     def binop(self, op, a, b, n=None):
+        if isinstance(a, VStr) and isinstance(op, (ast.Mod, ast.Add)):
+            return VStr("<formatted>")
         if isinstance(op, ast.Add) and isinstance(a, VSeq) and isinstance(b, VSeq) and a.pylist and b.pylist:
             return self.concat(a, b)
         if isinstance(a, VNum) and isinstance(b, VNum):
@@ -819,6 +843,13 @@ class Engine:
         if isinstance(f, VCallRef):
             self.oblige("pre@callable:" + ast.unparse(n)[:40], st, f.kind == 2)
             return self.read_field(st, VRef(f.owner, self.callref_owner_cls), self.callref_owner_field)
+        if isinstance(f, VBound) and isinstance(f.recv, VStr):
+            return VStr("<formatted>")
+        if isinstance(f, VBound) and isinstance(f.recv, VExternal):
+            f.recv.rec["calls"].append((f.name, list(args), dict(kw)))
+            return VOpaque(("ext", f.recv.name, f.name, len(f.recv.rec["calls"])))
+        if isinstance(f, VBound) and isinstance(f.recv, VDict) and f.name in ("keys", "values", "items"):
+            return VTuple([VStr(k_) if isinstance(k_, str) else VOpaque(k_) for k_ in f.recv.d] if f.name == "keys" else list(f.recv.d.values()) if f.name == "values" else [VTuple([VStr(k_), v_]) for k_, v_ in f.recv.d.items()])
         if isinstance(f, VBound) and isinstance(f.recv, VDict):
             k = self.key_of(args[0])
             dflt = args[1] if len(args) > 1 else VNone()
@@ -835,7 +866,7 @@ class Engine:
                 return f.recv  # ndarray.copy(): same value, fresh identity (values are immutable terms here); dict.values(): the entry sequence
             if isinstance(f.recv, VSeq) and f.name == "append":
                 raise Unsupported("append on non-field list")
-            return self.call_method(st, f.recv, f.name, args, kw)
+            return self.call_method(st, f.recv, f.name, args, kw, node=n)
         raise Unsupported("call " + ast.unparse(n.func))
 
     def bool_reduce(self, bs, how):
@@ -844,22 +875,39 @@ class Engine:
         return VBool(z3.ForAll([q], z3.Implies(rng, bs.fn(q))) if how == "all" else z3.Exists([q], z3.And(rng, bs.fn(q))))
 
     # ---- method calls: contract, else inline the REAL body (no recursion without contract)
-    def call_method(self, st, recv, name, args, kw, kind=None):
+    def call_method(self, st, recv, name, args, kw, kind=None, node=None):
         owner, fdef = self.repo.find(recv.cls, name, kind)
         if fdef is None:
             raise Unsupported(f"method {recv.cls}.{name}")
         c = self.contracts.get((owner, name, kind)) or self.contracts.get((recv.cls, name, kind))
+        if c is None:
+            for anc in self.repo.mro(recv.cls):
+                if (anc, name, kind) in self.contracts:
+                    c = self.contracts[(anc, name, kind)]
+                    break
         if c is not None and not c.inline:
-            return self.apply_contract(st, c, recv, args, kw, fdef)
+            return self.apply_contract(st, c, recv, args, kw, fdef, node)
         # inline
         sub = State()
-        sub.heap, sub.pc, sub.ghost = st.heap, st.pc, st.ghost  # shared (mutated in place by single-path inlining)
+        sub.heap, sub.pc, sub.ghost, sub.decisions = st.heap, st.pc, st.ghost, st.decisions  # shared (mutated in place by single-path inlining)
         params = [a.arg for a in fdef.args.args]
         sub.locals = {params[0]: recv}
         for p, a in zip(params[1:], args):
             sub.locals[p] = a
         sub.locals.update(kw)
-        outs = self.run(fdef.body, sub)
+        defaults = fdef.args.defaults
+        for p, d in zip(params[len(params) - len(defaults):], defaults):
+            if p not in sub.locals:
+                sub.locals[p] = self.ev(d, sub)
+        self._ctx = getattr(self, "_ctx", ()) + (id(node),)
+        try:
+            outs = self.run(fdef.body, sub)
+        finally:
+            self._ctx = self._ctx[:-1]
+        raises = [(s_, fl, v_) for s_, fl, v_ in outs if fl == "raise"]
+        if len(outs) == 1 and len(raises) == 1:
+            st.heap, st.pc, st.ghost = raises[0][0].heap, raises[0][0].pc, raises[0][0].ghost
+            raise PyRaise(raises[0][2])
         normal = [(s, fl, v) for s, fl, v in outs if fl in ("next", "return")]
         if len(outs) != 1 or len(normal) != 1:
             raise Unsupported(f"inlined {recv.cls}.{name} forks ({len(outs)} paths): give it a contract")
@@ -867,7 +915,7 @@ class Engine:
         st.heap, st.pc, st.ghost = s.heap, s.pc, s.ghost
         return v if fl == "return" and v is not None else VNone()
 
-    def apply_contract(self, st, c, recv, args, kw, fdef):
+    def apply_contract(self, st, c, recv, args, kw, fdef, node=None):
         static = any(ast.unparse(d) == "staticmethod" for d in fdef.decorator_list)
         params = [a.arg for a in fdef.args.args][0 if static else 1:]
         amap = dict(zip(params, args))
@@ -876,6 +924,10 @@ class Engine:
         view = View(self, pre, None, recv, amap)
         for i, r in enumerate(c.requires):
             self.oblige(f"pre@call:{c.cls}.{c.name}#{i}", st, r(view))
+        if getattr(c, "raises", None) is not None:
+            exc, cond = c.raises(view)
+            if self.decide(st, ("raises", getattr(self, "_ctx", ()), id(node), c.name), cond):
+                raise PyRaise(exc)
         for field, kind, part in c.modifies:
             old = st.h(field, kind, part)
             st.set_h(field, kind, part, fresh(f"H_{field}", old.sort()) if recv is None else z3.Store(old, recv.e, fresh(f"{field}_post", old.sort().range())))
@@ -963,7 +1015,7 @@ class Engine:
 
     def ev_IfExp(self, n, st):
         c = self.truth(self.ev(n.test, st))
-        return self.ev(n.body, st) if self.decide(st, ("ifexp", id(n)), c) else self.ev(n.orelse, st)
+        return self.ev(n.body, st) if self.decide(st, ("ifexp", getattr(self, "_ctx", ()), id(n)), c) else self.ev(n.orelse, st)
 
     def st_Pass(self, n, st):
         return [(st, "next", None)]
@@ -1016,7 +1068,7 @@ class Engine:
             if self.ftype(base.cls, t.attr) is not None:
                 self.write_field(st, base, t.attr, v)
             elif self.repo.find(base.cls, t.attr, "setter")[1] is not None:
-                self.call_method(st, base, t.attr, [v], {}, kind="setter")
+                self.call_method(st, base, t.attr, [v], {}, kind="setter", node=t)
             else:
                 raise Unsupported(f"store to {base.cls}.{t.attr}")
         elif isinstance(t, ast.Subscript) and isinstance(self.ev(t.value, st), VDict):
